@@ -53,35 +53,26 @@ Proof.
   - destruct (to_ref_error _ C) as [e E]. unfold assocList. rewrite E. apply orb_true_r.
 Qed.
 
-Definition good_b (rs : list N) : bool := forallb (fun r => valid_rune r && negb (r =? RuneError)%N) rs.
-
-Lemma good_b_good rs : good_b rs = true -> good rs.
-Proof.
-  unfold good_b, good. rewrite forallb_forall. intros H r Hr. specialize (H r Hr).
-  apply andb_true_iff in H as [V NE]. split; [exact V|].
-  apply negb_true_iff, N.eqb_neq in NE. exact NE.
-Qed.
-
-Theorem model_meets_oracle_index_str : forall rs s raw, good_b rs = true -> zlen s <= MaxInt ->
+Theorem model_meets_oracle_index_str : forall rs s raw, zlen s <= MaxInt ->
   check_C13 (OpIndexStr (Some rs) s raw) (run_op (OpIndexStr (Some rs) s raw)) = true.
 Proof.
-  intros rs s raw G Hlen. cbn [check_C13 run_op].
+  intros rs s raw Hlen. cbn [check_C13 run_op].
   destruct (valid_text rs s) eqn:VT; [|reflexivity]. cbn [negb orb].
-  unfold valid_text in VT. apply andb_true_iff in VT as [_ VT]. apply bytes_eqb_spec in VT. subst s.
-  pose proof (index_string_ref rs raw (good_b_good rs G) Hlen) as H. cbv zeta in H.
+  unfold valid_text in VT. apply andb_true_iff in VT as [G VT]. apply bytes_eqb_spec in VT. subst s.
+  pose proof (index_string_ref rs raw G Hlen) as H. cbv zeta in H.
   destruct (ref_string_range rs (encode_all rs) raw) as [[lo hi]|].
   - rewrite H. change (firstn (Z.to_nat (hi - lo)) (skipn (Z.to_nat lo) (encode_all rs)))
       with (sub_list (encode_all rs) lo hi). rewrite bytes_eqb_refl. apply orb_true_r.
   - destruct H as [e E]. rewrite E. apply orb_true_r.
 Qed.
 
-Theorem model_meets_oracle_assoc_str : forall rs s raw rp, good_b rs = true -> zlen s <= MaxInt ->
+Theorem model_meets_oracle_assoc_str : forall rs s raw rp, zlen s <= MaxInt ->
   check_C13 (OpAssocStr (Some rs) s raw (Some rp)) (run_op (OpAssocStr (Some rs) s raw (Some rp))) = true.
 Proof.
-  intros rs s raw rp G Hlen. cbn [check_C13 run_op].
+  intros rs s raw rp Hlen. cbn [check_C13 run_op].
   destruct (valid_text rs s) eqn:VT; [|reflexivity]. cbn [negb orb].
-  unfold valid_text in VT. apply andb_true_iff in VT as [_ VT]. apply bytes_eqb_spec in VT. subst s.
-  pose proof (assoc_string_frame rs raw rp (good_b_good rs G) Hlen) as H. cbv zeta in H.
+  unfold valid_text in VT. apply andb_true_iff in VT as [G VT]. apply bytes_eqb_spec in VT. subst s.
+  pose proof (assoc_string_frame rs raw rp G Hlen) as H. cbv zeta in H.
   destruct (ref_string_range rs (encode_all rs) raw) as [[lo hi]|].
   - rewrite H. rewrite bytes_eqb_refl. apply orb_true_r.
   - destruct H as [e E]. rewrite E. apply orb_true_r.
